@@ -63,6 +63,7 @@ def sv_cases(draw: Any, feat: Optional[S.Features] = None, nrand: int = 2, max_l
             spicy_comments=draw(st.booleans()),
             trailing_comments=draw(st.booleans()),
             join_statements=draw(st.booleans()),
+            proto_late=draw(st.integers(0, 3)) == 2,
             crlf=draw(st.integers(0, 3)) == 1,
         )
     return SVCase(unit, rand, style, cfg)
